@@ -52,6 +52,7 @@ type dayAcc struct {
 	zeit                       int
 	s0, fluss0                 float64
 	sumTP, sumQ, sumQD, sumWdt float64
+	notFits                     bool
 	steps                      int
 	wdt                        float64
 	excluded                   bool
@@ -202,6 +203,11 @@ func traceLine(work, line string, lineNo int, r *rng, waterEvery int) {
 			}
 			for i := 0; i < g.N; i++ {
 				day.sumTP += g.TP[i] * wdt
+				// hypothesis of C06_lower_bound_day_nonevap: the clamped uptake of the day, less one sub-step, fits between
+				// field capacity and the dryness limit
+				if subd == 1 && g.TP[i]*(1-wdt) > (g.W[i]-g.WMIN[i]/3)*10 {
+					day.notFits = true
+				}
 			}
 			day.sumQ += g.Q1[g.N]
 			day.sumQD += g.QDRAIN
@@ -236,7 +242,7 @@ func traceLine(work, line string, lineNo int, r *rng, waterEvery int) {
 			res := s1 - expect
 			scale := math.Abs(day.s0) + math.Abs(day.fluss0) + math.Abs(day.sumQ) + math.Abs(day.sumTP)
 			emit(jobj{"k": "day", "line": lineNo, "zeit": zeit, "steps": day.steps, "wdt": hx(day.wdt), "s0": hx(day.s0), "s1": hx(s1),
-				"grw": g.GRW, "wurz": g.WURZ, "akf": g.AKF.Index, "crop": fmt.Sprint(g.FRUCHT[g.AKF.Index]), "saat": g.SAAT[g.AKF.Index], "ernte": g.ERNTE[g.AKF.Index], "fluss0": hx(day.fluss0), "tp": hx(day.sumTP), "q": hx(day.sumQ), "qd": hx(day.sumQD), "res": res, "excluded": day.excluded})
+				"grw": g.GRW, "wurz": g.WURZ, "akf": g.AKF.Index, "crop": fmt.Sprint(g.FRUCHT[g.AKF.Index]), "saat": g.SAAT[g.AKF.Index], "ernte": g.ERNTE[g.AKF.Index], "fluss0": hx(day.fluss0), "tp": hx(day.sumTP), "q": hx(day.sumQ), "qd": hx(day.sumQD), "res": res, "excluded": day.excluded, "uptake_fits": !day.notFits})
 			// C06: bounds and finiteness at the end of the day
 			maxCaps := 0.0
 			for _, c := range g.CAPS {
